@@ -11,9 +11,11 @@ def sh(cmd, cwd=None):
 def clean(wt):
     sh("git checkout -- . && git clean -fdq", wt)
 
+BASE = os.environ.get("MUT_BASE", "/tmp/mut")       # round 2: MUT_BASE=/tmp/mut2 MUT_TAG=r2-
+TAG = os.environ.get("MUT_TAG", "")
 for pid in sys.argv[1:]:
-    wt = f"/tmp/mut/{pid}"
-    for md in sorted(glob.glob(f"/tmp/mut/{pid}.out/m*")):
+    wt = f"{BASE}/{pid}"
+    for md in sorted(glob.glob(f"{BASE}/{pid}.out/m*")):
         k = os.path.basename(md)
         meta = json.load(open(os.path.join(md, "meta.json")))
         demo = meta["demo_cmd"].replace("<repo>", wt)
@@ -31,7 +33,7 @@ for pid in sys.argv[1:]:
         ok = rc_a == 0 and rc_ap == 0 and rc_b == 0 and rc_s == 0 and "missing=0 new_failures=0" in out_s and rc_d != 0
         print(f"{pid} {k}: clean_demo={rc_a} apply={rc_ap} build={rc_b} suite={out_s.strip().splitlines()[0] if out_s.strip() else rc_s} patched_demo={rc_d} => {'CONFIRMED' if ok else 'REJECTED'}", flush=True)
         if ok:
-            dst = f"/verif/seeded/{pid}-{k}"
+            dst = f"/verif/seeded/{pid}-{TAG}{k}"
             shutil.rmtree(dst, ignore_errors=True)
             os.makedirs(dst)
             for f in os.listdir(md):
